@@ -128,6 +128,141 @@ func registerChildOpsExt() {
 	})
 }
 
+type overlapResp struct {
+	Older      string   `json:"older"`
+	Newer      string   `json:"newer"`
+	OlderFiles []string `json:"older_files"`
+	NewerFiles []string `json:"newer_files"`
+	Blocked    bool     `json:"second_pass_blocked"`
+}
+
+func init() {
+	// two retention passes in flight (C15_parallel_retention_overlapping_passes_refuted): a reader holds a provider of
+	// the oldest fraction, the first pass pushes that fraction out (its goroutine waits in Suicide for the reader), a
+	// second pass (next maintenance step, lower limit / more data) pushes out and deletes the next fraction
+	storectl.Register("c15.overlap", func(c *storectl.Child, r storectl.Req) (storectl.Resp, error) {
+		c.FM.WaitIdle()
+		frs := c.FM.GetAllFracs()
+		if len(frs) < 3 {
+			return storectl.Resp{}, fmt.Errorf("need three fractions, have %d", len(frs))
+		}
+		out := overlapResp{Older: filepath.Base(frs[0].Info().Path), Newer: filepath.Base(frs[1].Info().Path)}
+		dp, rel := frs[0].DataProvider(context.Background())
+		if _, empty := dp.(frac.EmptyDataProvider); empty {
+			rel()
+			return storectl.Resp{}, fmt.Errorf("no provider for the oldest fraction")
+		}
+		var l1, l2 uint64
+		for i, g := range frs {
+			if i >= 1 {
+				l1 += g.Info().FullSize()
+			}
+			if i >= 2 {
+				l2 += g.Info().FullSize()
+			}
+		}
+		c.FM.VerifC15SetTotalSize(l1)
+		go c.FM.VerifC15ShrinkSizes() // never returns while the provider is out
+		time.Sleep(60 * time.Millisecond)
+		c.FM.VerifC15SetTotalSize(l2)
+		done := make(chan struct{})
+		go func() {
+			defer close(done)
+			c.FM.VerifC15ShrinkSizes()
+		}()
+		select {
+		case <-done:
+		case <-time.After(5 * time.Second):
+			out.Blocked = true
+		}
+		out.OlderFiles, out.NewerFiles = fracFiles(c.Dir, out.Older), fracFiles(c.Dir, out.Newer)
+		b, _ := json.Marshal(out)
+		return storectl.Resp{Extra: b}, nil // the provider is never released: the parent kills the process (crash)
+	})
+}
+
+// overlapCandidate replays C15_parallel_retention_overlapping_passes_refuted on the real code and COUNTS the outcome
+// (reported as a candidate finding, not as a violation: see the report / manifest level_note).
+func (d *driver) overlapCandidate(sorted bool) {
+	dir := d.newDir()
+	os.MkdirAll(dir, 0o755)
+	defer os.RemoveAll(dir)
+	ch, err := storectl.Start("")
+	if err != nil {
+		d.w.Count("harness_errors")
+		return
+	}
+	ch.Timeout = 60 * 1e9
+	killed := false
+	defer func() {
+		if !killed {
+			ch.Close()
+		}
+	}()
+	if _, e := ch.Call(openReq(dir, sorted)); e != nil {
+		return
+	}
+	var all []doc
+	for i := 0; i < 3; i++ {
+		docs := d.genDocs(2)
+		req := storectl.Req{Op: "bulk"}
+		for _, x := range docs {
+			req.Docs = append(req.Docs, storectl.Doc{MID: x.MID, RID: x.RID, BodyHex: fmt.Sprintf("%x", x.Body), Tokens: []string{fmt.Sprintf("k:v%d", x.RID%3)}})
+		}
+		if _, e := ch.Call(req); e != nil {
+			return
+		}
+		all = append(all, docs...)
+		if i < 2 {
+			if _, e := ch.Call(storectl.Req{Op: "seal"}); e != nil {
+				return
+			}
+		}
+	}
+	r, e := ch.Call(storectl.Req{Op: "c15.overlap"})
+	if e != nil {
+		d.w.Count("overlap_candidate_run_failed")
+		return
+	}
+	var out overlapResp
+	json.Unmarshal(r.Extra, &out)
+	ch.Kill() // crash while the first pass is still waiting for the reader
+	killed = true
+	ch.Close()
+	d.w.Count("overlap_candidate_runs")
+	if out.Blocked {
+		d.w.Count("overlap_candidate_second_pass_waited")
+		return
+	}
+	ch2, err := storectl.Start("")
+	if err != nil {
+		d.w.Count("harness_errors")
+		return
+	}
+	defer ch2.Close()
+	ch2.Timeout = 60 * 1e9
+	if _, e := ch2.Call(openReq(dir, sorted)); e != nil {
+		d.w.Count("overlap_candidate_restart_failed")
+		return
+	}
+	r2, e := ch2.Call(storectl.Req{Op: "c15.info"})
+	if e != nil {
+		return
+	}
+	listed := map[string]bool{}
+	for _, f := range extraInfos(r2) {
+		listed[f.Name] = true
+	}
+	if listed[out.Older] && !listed[out.Newer] {
+		d.w.Count("overlap_candidate_older_served_newer_gone")
+		d.w.Extra["candidate_overlapping_passes_sort_"+fmt.Sprint(sorted)] = map[string]any{"older": out.Older, "newer": out.Newer,
+			"older_files_at_crash": out.OlderFiles, "newer_files_at_crash": out.NewerFiles,
+			"after_restart": "older fraction listed and served, newer fraction gone"}
+	} else {
+		d.w.Count("overlap_candidate_not_reproduced")
+	}
+}
+
 var useSchedules = [][]string{
 	{"acq", "suicide", "rel", "acq"},
 	{"acq", "acq", "suicide", "rel", "rel", "acq"},
